@@ -1315,6 +1315,9 @@ func (ev *Env) builtinSpec(name string, argEs []Expr) (T, bool) {
 	case "f32bits":
 		vc.decl("math.Float32bits", "(declare-fun math.Float32bits (Real) Int)")
 		return T{fmt.Sprintf("(math.Float32bits %s)", arg(0).S), "Int", intT}, true
+	case "f64bits":
+		vc.decl("math.Float64bits", "(declare-fun math.Float64bits (Real) Int)")
+		return T{fmt.Sprintf("(math.Float64bits %s)", arg(0).S), "Int", intT}, true
 	case "f32frombits":
 		vc.decl("math.Float32frombits", "(declare-fun math.Float32frombits (Int) Real)")
 		return T{fmt.Sprintf("(math.Float32frombits %s)", arg(0).S), "Real", types.Typ[types.Float32]}, true
